@@ -212,7 +212,7 @@ def parse_config(text: str, source: str | None = None) -> Config:
     settings: dict[str, bool | int | str | Path] = {}
     prefix = f"{source}: " if source else ""
 
-    for lineno, raw_line in enumerate(text.splitlines(), 1):
+    for lineno, raw_line in enumerate(text.split("\n"), 1):
         line = raw_line.strip()
         if not line or line.startswith("#"):
             continue
